@@ -1027,6 +1027,14 @@ class HistoryWorld:
         got = EM.canon_text(meta['kind'], text, meta['ec'])
         if want == got:
             self.probe('c09_compared')
+            # same children, but the text itself: an element none of whose children is blank does not end
+            # in a separator (a child that was deleted leaves no slot behind)
+            if meta['kind'] in ('seg', 'fld', 'cmp') and not text.startswith('MSH') and isinstance(m, EM.Node) \
+                    and not EM.has_empty(m) and text and text[-1] in (meta['ec']['FIELD'], meta['ec']['COMPONENT'],
+                                                                      meta['ec']['SUBCOMPONENT'], meta['ec']['REPETITION']):
+                self.violate('C09.encoding', '%s: encoding ends in a separator although no child is blank' % self.op_key(op),
+                             '%s model=%r er7=%r' % (s.tag, _short(want), text[:300]), step)
+                s.models[ri] = None
             return
         sig = self.classify_c09(want, got, meta['kind'])
         self.violate('C09.encoding', '%s: %s' % (self.op_key(op), sig),
